@@ -702,8 +702,10 @@ def tet_compute_gradient(tet, vfunc):
     e5 = v3 - v2
     # Compute cross product and  1 / (6 * vol) for each tetrahedron:
     cr = np.cross(e0, e2)
-    vol = np.abs(np.sum(e3 * cr, axis=1))
-    vol[vol < sys.float_info.epsilon] = 1  # avoid division by zero
+    # signed parallelepiped volume (its sign must match the sign of the
+    # numerator below, otherwise the gradient flips with the orientation)
+    vol = np.sum(e3 * cr, axis=1)
+    vol[np.abs(vol) < sys.float_info.epsilon] = 1  # avoid division by zero
     voli = np.divide(1.0, vol)[:, np.newaxis]
     # sum weighted edges
     # c0 = vfunc[t[:,0],np.newaxis] * np.cross(,)
@@ -757,11 +759,14 @@ def tet_compute_divergence(tet, tfunc):
     n1 = np.cross(e3, e2)
     n2 = np.cross(e0, e3)
     n3 = np.cross(e2, e0)
+    # the normals above point outward only for negatively oriented tetras,
+    # flip them for positively oriented ones (negative adjoint of gradient)
+    sgn = -np.sign((e3 * np.cross(e0, e2)).sum(1))
     # sum contributions to vertices
-    x0 = (n0 * tfunc).sum(1)
-    x1 = (n1 * tfunc).sum(1)
-    x2 = (n2 * tfunc).sum(1)
-    x3 = (n3 * tfunc).sum(1)
+    x0 = sgn * (n0 * tfunc).sum(1)
+    x1 = sgn * (n1 * tfunc).sum(1)
+    x2 = sgn * (n2 * tfunc).sum(1)
+    x3 = sgn * (n3 * tfunc).sum(1)
     i = np.column_stack((tet.t[:, 0], tet.t[:, 1], tet.t[:, 2], tet.t[:, 3])).reshape(
         -1
     )
